@@ -1,11 +1,13 @@
 """C01 - solve returns the solution of AX - MXE = B, or warns (reference-model monitor with dense shadow)."""
 import random
+import types
 
 import torch
 import xitorch.grad
 
 from vf.common import Obs, sub_seed, WarnLog
 from vf import gen
+from vf import c01_extra
 
 LEVEL = "exploration"
 TECHNIQUE = "runtime reference-model monitor: residual / dense per-column reference / silence-implies-converged oracle over generated systems"
@@ -20,12 +22,41 @@ RULE = ("cases drawn by seeded sampling over operator kind {dense, mv, mv_rmv, a
         "spectrum {spd, indef, nonherm (random singular vectors), nonherm_pd (positive-definite Hermitian part)} x n x ncols x tolerance setting x special right-hand sides; non-trivial = B != 0 and the "
         "solver evaluated >= 2 operator products (counted by the spy operator) or used the dense path with n >= 2")
 RULE += ("; operator kinds matmul_rb / add_rb carry the batch dimensions in the second operand only; group directed_f32_default: float32 with the library's default tolerances, cond <= 3, residual <= 4 x the stopping tolerance")
+RULE += ("; group history (vf/c01_extra.py): 2-3 solves with ONE operator object (dense-wrapped, matrix-free with / without _fullmatrix, Hermitian-flagged, a sum with "
+         "one updated term) whose tensor - and the tensors of B, E, M - the caller updates between the solves (copy_, add_, mat[...]=, mul_, diagonal().add_, .data=, "
+         "re-assignment), every solve checked against the dense shadow of the tensors held at the time of that call; group alias: operands whose product is the "
+         "vector they were given / a view of it / an expansion of a stored buffer (matrix-free identity, structurally zero operator) inside K+s*I, K-I*s, s*I+K, K+I, "
+         "K+(s*I).H, K.matmul(I), I.matmul(K), (s*I).matmul(K), K+s*Z and as M=c*I, M=I; all methods; in every group the tensors handed to solve (B, E, the tensors "
+         "held by the operators) must be bitwise unchanged after the call; group subatol: right-hand sides whose entries are all slightly below the absolute "
+         "tolerance of the call (default 1e-8, 1e-11, a caller's 1e-3; float32 1e-5) while the column norms exceed it for n >= 5, iterative methods: a column "
+         "returned silently as exactly zero must pass the method's stopping test |b| <= max(rtol |b|, atol), evaluated exactly (its residual is b); group units: "
+         "the generated system with A and E scaled by 1e-9 / 1e-10 / 1e-12 (small units), purely relative tolerances (rtol 1e-7, atol 0), dense-wrapped operators whose "
+         "Hermitian flag the library determines itself (the must-be-silent class is that of the dense shadow), a dense term inside a sum, matrix-free controls")
 MIN_NONTRIVIAL = {"quick": 600, "thorough": 8000}
+REQUIRED_COUNTERS = {
+    "quick": {"caller_tensors_compared": 3000, "history_resolves": 300, "history_resolves_after_inplace_update": 200,
+              "history_direct_noE_ownmatrix_after_inplace_update": 10, "history_iterative_resolves_after_inplace_update": 100,
+              "alias_solves_reaching_unowned_product": 300, "alias_iterative_scaled_identity": 60, "alias_unowned_products": 5000,
+              "subatol_iterative_solves": 80, "subatol_rhs_all_entries_below_atol_all_norms_above": 40,
+              "units_dense_autoflag_nonhermitian": 25, "units_cg_dense_nonhermitian": 6},
+    "thorough": {"caller_tensors_compared": 30000, "history_resolves": 3000, "history_resolves_after_inplace_update": 2000,
+                 "history_direct_noE_ownmatrix_after_inplace_update": 100, "history_iterative_resolves_after_inplace_update": 1000,
+                 "alias_solves_reaching_unowned_product": 3000, "alias_iterative_scaled_identity": 600, "alias_unowned_products": 50000,
+                 "subatol_iterative_solves": 800, "subatol_rhs_all_entries_below_atol_all_norms_above": 400,
+                 "units_dense_autoflag_nonhermitian": 250, "units_cg_dense_nonhermitian": 60},
+}
 ASSUMPTIONS = ["cond(A - e_c M) <= 40 for every column and batch element (generator re-draws E otherwise)",
                "float32 cases request rtol=1e-4/atol=1e-5 (attainable in working precision), except the group directed_f32_default (cond <= 3, default tolerances, residual bound 4 x the stopping tolerance)", "broyden1 is not given 1e-11-scaled right-hand sides (float32 underflow in the quasi-Newton update) nor the 1e3-scaled eigenvector column (its absolute f_tol is then 1e-12 relative, where the rank-one updates stall at ~1e-10)",
                "must-be-silent classes: direct methods always; cg on Hermitian-flagged SPD systems with real shifts keeping them SPD, "
                "or through the normal equations when cond<=6; bicgstab on SPD and on non-Hermitian systems with cond<=12 and n>=2; "
-               "broyden1 when the total number of unknowns <= 40; gmres never (only 'silent => converged')"]
+               "broyden1 when the total number of unknowns <= 40; gmres never (only 'silent => converged')",
+               "bicgstab is not held to silence on indefinite Hermitian and on general non-Hermitian systems (it warns on about half of the Hermitian indefinite "
+               "systems of cond 10, n=20): with the default budget of 1.5 n iterations the one-dimensional minimal-residual step of BiCGSTAB stagnates when "
+               "the field of values contains 0 - a limit of the algorithm, the same systems converge silently with max_niter=100; the warning is honest",
+               "group units: float64 / complex128 only ((A^H A p, p) ~ unit^4 leaves the range of float32), no broyden1 (its initial Jacobian guess and its absolute "
+               "f_tol / x_tol depend on the units), no zero columns (atol = 0)",
+               "groups history / alias: same bounds and must-be-silent classes as the other groups (n <= 12 quick / 20 thorough); between the solves of a history the "
+               "caller changes tensors only outside any call and without autograd (no_grad); an operand whose product is not a new tensor never writes to it itself"]
 BUDGET = {"quick": {"worker_timeout": 1200, "case_timeout": 400}, "thorough": {"worker_timeout": 3400, "case_timeout": 600}}
 
 OPKINDS = ["dense", "mv", "mv_rmv", "all", "herm_mv", "add", "sub", "mul", "matmul", "adj", "adj_mv", "jac", "add_herm", "matmul_rb", "add_rb"]
@@ -107,6 +138,7 @@ def cases(seed, tier):
                                     "emode": emode, "batch": k % len(gen.BATCH_TUPLES_4), "dtype": "complex128", "spectrum": spectrum,
                                     "n": n, "ncols": 1 + k % 3, "tol": "default", "special": None, "kappa": 3.0, "complexE": True})
                         k += 1
+    out.extend(c01_extra.cases(seed, tier))
     return out
 
 
@@ -157,51 +189,74 @@ def build_operator(kind, A, rng, tgen, counter):
     raise ValueError(kind)
 
 
-def run_case(desc):
-    import xitorch
-    from xitorch.linalg import solve
-    obs = Obs(desc)
-    rng = random.Random(desc["seed"])
-    tgen = torch.Generator().manual_seed(desc["seed"])
-    dt = gen.rdtype(desc["dtype"])
-    rdt = torch.float32 if dt == torch.float32 else torch.float64
-    n, ncols = desc["n"], desc["ncols"]
-    method, kind, emode, spectrum = desc["method"], desc["opkind"], desc["emode"], desc["spectrum"]
+def resolve(desc):
+    """dimensions of one case after the documented constraints between them (RULE)"""
+    P = types.SimpleNamespace()
+    P.dt = gen.rdtype(desc["dtype"])
+    P.rdt = torch.float32 if P.dt == torch.float32 else torch.float64
+    P.n, P.ncols = desc["n"], desc["ncols"]
+    P.method, P.kind, P.emode, P.spectrum = desc["method"], desc["opkind"], desc["emode"], desc["spectrum"]
     BA, BB, BE, BM = gen.BATCH_TUPLES_4[desc["batch"]]
     if "BA" in desc:
         BA, BB = tuple(desc["BA"]), tuple(desc["BB"])
     # ---- constraints between dimensions (documented in RULE)
-    if kind == "jac":
+    if P.kind == "jac":
         BA = ()
-        if dt.is_complex:
-            dt, rdt = torch.float64, torch.float64
-    if kind in ("herm_mv", "add_herm") and spectrum == "nonherm":
-        spectrum = "spd"
-    if emode == "none":
+        if P.dt.is_complex:
+            P.dt, P.rdt = torch.float64, torch.float64
+    if P.kind in ("herm_mv", "add_herm") and P.spectrum == "nonherm":
+        P.spectrum = "spd"
+    if P.emode == "none":
         BE, BM = (), ()
-    if emode == "E":
+    if P.emode == "E":
         BM = ()
-    hermitian_only = method == "cg" and kind in ("herm_mv", "add_herm")
-    if kind in ("herm_mv", "add_herm") and spectrum == "nonherm_pd":
-        spectrum = "spd"
-    if spectrum == "nonherm_pd":
+    if P.kind in ("herm_mv", "add_herm") and P.spectrum == "nonherm_pd":
+        P.spectrum = "spd"
+    P.BA, P.BB, P.BE, P.BM = BA, BB, BE, BM
+    P.full_b = gen.bshape(BA, BB, BE, BM)
+    P.A = P.M = P.E = P.B = None
+    return P
+
+
+def draw_A(P, desc, rng, tgen):
+    n, dt = P.n, P.dt
+    if P.spectrum == "nonherm_pd":
         # positive-definite Hermitian part plus a skew part of at most half its smallest eigenvalue
-        P = gen.make_matrix("spd", n, BA, dt, desc["kappa"], rng, tgen)
-        K = torch.randn(*BA, n, n, dtype=dt, generator=tgen)
+        Pm = gen.make_matrix("spd", n, P.BA, dt, desc["kappa"], rng, tgen)
+        K = torch.randn(*P.BA, n, n, dtype=dt, generator=tgen)
         K = K - K.transpose(-2, -1).conj()
         K = K / (torch.linalg.matrix_norm(K, ord=2)[..., None, None] + 1e-30) * 0.5
-        A = P + K
+        return Pm + K
+    return gen.make_matrix(P.spectrum, n, P.BA, dt, desc["kappa"], rng, tgen)
+
+
+def draw_M(P, desc, rng, tgen):
+    if P.emode == "EM":
+        return gen.make_matrix("spd", P.n, P.BM, P.dt, 5.0, rng, tgen)
+    return None
+
+
+def shadow(P):
+    """the shifted matrices S = A - e_c M of every column from the dense values P.A, P.M, P.E, with their conditioning"""
+    n, dt = P.n, P.dt
+    P.Md = P.M if P.M is not None else torch.eye(n, dtype=dt)
+    if P.E is not None:
+        P.S = P.A.unsqueeze(-3) - P.E.reshape(*P.E.shape, 1, 1) * P.Md.unsqueeze(-3)   # (..., ncols, n, n)
     else:
-        A = gen.make_matrix(spectrum, n, BA, dt, desc["kappa"], rng, tgen)
-    M = None
-    if emode == "EM":
-        M = gen.make_matrix("spd", n, BM, dt, 5.0, rng, tgen)
-    # ---- shifts: keep cond(A - e M) <= KMAX; real shifts for Hermitian-only configurations
-    E = None
-    kap = None
-    full_b = gen.bshape(BA, BB, BE, BM)
-    Md = M if M is not None else torch.eye(n, dtype=dt)
+        P.S = P.A.unsqueeze(-3)
+    P.sv = torch.linalg.svdvals(P.S)
+    P.kap = float((P.sv[..., 0] / P.sv[..., -1]).max())
+    P.smin = float(P.sv[..., -1].min())
+
+
+def draw_rest(P, desc, obs, rng, tgen):
+    """shifts E (keeping cond(A - e M) <= KMAX; real shifts for Hermitian-only configurations) and the right-hand side B for the
+    dense values P.A, P.M"""
+    n, ncols, dt, rdt, emode, spectrum = P.n, P.ncols, P.dt, P.rdt, P.emode, P.spectrum
+    A, BE, BB = P.A, P.BE, P.BB
+    P.E = None
     if emode != "none":
+        Md = P.M if P.M is not None else torch.eye(n, dtype=dt)
         scale = 1.0
         for attempt in range(8):
             if dt.is_complex and (rng.random() < 0.6 or desc.get("complexE")) and attempt < 6:
@@ -218,14 +273,10 @@ def run_case(desc):
             scale *= 0.4
         else:
             E = torch.zeros(*BE, ncols, dtype=dt)
-            S = A.unsqueeze(-3) - E.reshape(*E.shape, 1, 1) * Md.unsqueeze(-3)
-            sv = torch.linalg.svdvals(S)
-            kap = float((sv[..., 0] / sv[..., -1]).max())
-    else:
-        S = A.unsqueeze(-3)
-        sv = torch.linalg.svdvals(S)
-        kap = float((sv[..., 0] / sv[..., -1]).max())
-    smin = float(sv[..., -1].min())
+        P.E = E
+    shadow(P)
+    S, E = P.S, P.E
+    full_b = P.full_b
     B = torch.randn(*BB, n, ncols, dtype=dt, generator=tgen)
     f32_in = dt == torch.float32
     if desc["special"] == "zeroB":
@@ -236,6 +287,14 @@ def run_case(desc):
         B[..., 0] = 0
     elif desc["special"] == "bigcol":
         B[..., 0] = B[..., 0] * 100
+    elif desc["special"] in ("subatolB", "subatolB_somecols"):
+        # every entry is slightly below the absolute tolerance of the call (make_opts ran before), with the signs / phases of the random
+        # draw: the NORM of a column exceeds the tolerance as soon as n >= 5.  "_somecols": column 0 stays an ordinary column
+        mod = (0.5 + 0.45 * torch.rand(B.shape, dtype=rdt, generator=tgen)) * P.atol
+        Bs = (B / B.abs().clamp_min(1e-300)) * mod
+        if desc["special"] == "subatolB_somecols":
+            Bs[..., 0] = B[..., 0]
+        B = Bs.to(dt)
     elif desc["special"] == "bigeigcol":
         # column 0 is a large multiple of an eigenvector of its own shifted matrix (a Krylov method is done with it after one step),
         # the other columns are small and generic: every column still has to meet ITS OWN tolerance
@@ -250,19 +309,14 @@ def run_case(desc):
             B = B * (1e-3 if not f32_in else 1e-2)
             B[..., 0] = (1e3 * v / torch.linalg.vector_norm(v)).to(dt)
             obs.count("bigeigcol_inputs")
-    counter = {}
-    try:
-        Aop = build_operator(kind, A, rng, tgen, counter)
-        Mop = None
-        if M is not None:
-            Mop = gen.leaf_operator(rng.choice(["dense_herm", "herm_mv", "herm_all"]), M, counter)
-    except Exception as e:
-        obs.exc_violation("construct:%s" % kind, e)
-        obs.nontrivial = True
-        return obs.result()
-    # ---- options
+    P.B = B
+
+
+def make_opts(P, desc):
+    """options passed to solve and the stopping tolerances they imply"""
+    method = P.method
     opts = {}
-    f32 = dt == torch.float32
+    f32 = P.dt == torch.float32
     if method in ("cg", "bicgstab", "gmres") or method is None:
         if f32 and desc["tol"] == "default_f32":
             pass           # the library's defaults
@@ -270,50 +324,111 @@ def run_case(desc):
             opts.update(rtol=1e-4, atol=1e-5)
         elif desc["tol"] == "tight":
             opts.update(rtol=1e-9, atol=1e-11)
-    rtol = opts.get("rtol", 1e-6)
-    atol = opts.get("atol", 1e-8)
-    f_tol = 1e-6
+        elif desc["tol"] == "bigatol":
+            opts.update(rtol=1e-9, atol=1e-3)          # a caller who states the accuracy in absolute terms
+        elif desc["tol"] == "rel":
+            opts.update(rtol=1e-7, atol=0.0)           # purely relative: independent of the units of A and B
+        if f32 and desc["tol"] == "rel":
+            opts.update(rtol=1e-4, atol=0.0)
+    P.rtol = opts.get("rtol", 1e-6)
+    P.atol = opts.get("atol", 1e-8)
+    P.f_tol = 1e-6
     if method == "broyden1":
         if f32:
             opts.update(f_tol=1e-3, x_tol=1e-3)
-            f_tol = 1e-3
+            P.f_tol = 1e-3
         elif desc["tol"] == "tight":
             opts.update(f_tol=1e-9, x_tol=1e-9)
-            f_tol = 1e-9
-    eff_method = method
-    if method is None:
-        if kind == "dense" and (Mop is None or isinstance(Mop, xitorch._core.linop.MatrixLinearOperator)):
-            eff_method = "exactsolve"
-        elif n <= 5:
-            eff_method = "exactsolve"
-        else:
-            eff_method = "cg" if (Aop.is_hermitian and (Mop is None or Mop.is_hermitian)) else "bicgstab"
+            P.f_tol = 1e-9
+    P.opts = opts
+    P.f32 = f32
+    return opts
+
+
+def effective_method(P, Aop, Mop):
+    import xitorch
+    if P.method is not None:
+        return P.method
+    if getattr(P, "A_is_dense", P.kind == "dense") and (Mop is None or isinstance(Mop, xitorch._core.linop.MatrixLinearOperator)):
+        return "exactsolve"
+    if P.n <= 5:
+        return "exactsolve"
+    return "cg" if (Aop.is_hermitian and (Mop is None or Mop.is_hermitian)) else "bicgstab"
+
+
+def run_case(desc):
+    if desc.get("group") in c01_extra.GROUPS:
+        return c01_extra.run_case(desc)
+    obs = Obs(desc)
+    rng = random.Random(desc["seed"])
+    tgen = torch.Generator().manual_seed(desc["seed"])
+    P = resolve(desc)
+    P.A = draw_A(P, desc, rng, tgen)
+    P.M = draw_M(P, desc, rng, tgen)
+    draw_rest(P, desc, obs, rng, tgen)
+    counter = {}
+    try:
+        Aop = build_operator(P.kind, P.A, rng, tgen, counter)
+        Mop = None
+        if P.M is not None:
+            Mop = gen.leaf_operator(rng.choice(["dense_herm", "herm_mv", "herm_all"]), P.M, counter)
+    except Exception as e:
+        obs.exc_violation("construct:%s" % P.kind, e)
+        obs.nontrivial = True
+        return obs.result()
+    make_opts(P, desc)
+    obs.nontrivial = solve_and_check(obs, desc, P, Aop, Mop, counter)
+    return obs.result()
+
+
+def solve_and_check(obs, desc, P, Aop, Mop, counter, tag="", watched=()):
+    """One monitored call solve(Aop, P.B, P.E, Mop) checked against the dense shadow P.A, P.M (values of the operators' tensors AT THE
+    TIME OF THE CALL).  `tag` prefixes the mechanism keys (workload dimension), `watched` = [(name, tensor)] further tensors of the caller
+    that the call must leave as they are.  Returns whether the case was non-trivial."""
+    from xitorch.linalg import solve
+    dt, rdt, n, ncols, emode, spectrum, kind = P.dt, P.rdt, P.n, P.ncols, P.emode, P.spectrum, P.kind
+    A, E, B, S, Md, kap, smin, full_b = P.A, P.E, P.B, P.S, P.Md, P.kap, P.smin, P.full_b
+    method, opts, rtol, atol, f_tol, f32 = P.method, P.opts, P.rtol, P.atol, P.f_tol, P.f32
+    eff_method = effective_method(P, Aop, Mop)
+    P.X, P.warned, P.eff_method = None, None, eff_method
     obs.note(eff_method=eff_method, kappa=kap, shapes={"A": list(A.shape), "B": list(B.shape), "E": list(E.shape) if E is not None else None,
-                                                      "M": list(M.shape) if M is not None else None})
+                                                      "M": list(P.M.shape) if P.M is not None else None})
+    # the caller's tensors as they are handed over (the equation that is asked for)
+    held = [("B", B)] + ([("E", E)] if E is not None else []) + list(watched)
+    before = [(name, t, t.detach().clone()) for name, t in held]
+    nprod0 = sum(counter.values())
     # ---- the monitored call
     with WarnLog() as wl, torch.no_grad():
         try:
             X = solve(Aop, B, E, Mop, method=method, **opts)
         except Exception as e:
-            obs.exc_violation("solve:%s:%s:%s" % (eff_method, emode, "batch%d" % len(full_b)), e, kind=kind, dtype=str(dt))
-            obs.nontrivial = True
-            return obs.result()
+            obs.exc_violation(tag + "solve:%s:%s:%s" % (eff_method, emode, "batch%d" % len(full_b)), e, kind=kind, dtype=str(dt))
+            return True
     warned = bool(wl.convergence)
-    nprod = sum(counter.values())
+    nprod = sum(counter.values()) - nprod0
     obs.count("operator_products", nprod)
     obs.count("method_%s" % eff_method)
     obs.count("emode_%s" % emode)
     obs.count("opkind_%s" % kind)
     if warned:
         obs.count("warned_%s_%s" % (eff_method, spectrum))
+    # ---- (o) the call leaves the caller's tensors as they were (otherwise "AX - MXE = B" has no meaning for the caller)
+    for name, t, t0 in before:
+        same = t.shape == t0.shape and t.dtype == t0.dtype and bool(torch.equal(t, t0))
+        obs.count("caller_tensors_compared")
+        obs.check(same, tag + "input_modified:%s:%s" % (name.split("#")[0], eff_method),
+                  "solve changed the caller's tensor %s in place (max change %.3e)" % (name, float((t - t0).abs().max()) if t.shape == t0.shape and t.numel() else -1.0),
+                  kind=kind, emode=emode)
+    B = before[0][2]
+    if E is not None:
+        E = before[1][2]
     # ---- (i) shape and dtype
     want_shape = tuple(full_b) + (n, ncols)
-    obs.check(tuple(X.shape) == want_shape, "shape:%s:%s" % (eff_method, emode), "returned shape %s, expected broadcast shape %s" % (tuple(X.shape), want_shape),
+    obs.check(tuple(X.shape) == want_shape, tag + "shape:%s:%s" % (eff_method, emode), "returned shape %s, expected broadcast shape %s" % (tuple(X.shape), want_shape),
               special=desc["special"])
-    obs.check(X.dtype == B.dtype, "dtype:%s" % eff_method, "returned dtype %s, B has %s" % (X.dtype, B.dtype), special=desc["special"])
+    obs.check(X.dtype == B.dtype, tag + "dtype:%s" % eff_method, "returned dtype %s, B has %s" % (X.dtype, B.dtype), special=desc["special"])
     if tuple(X.shape) != want_shape:
-        obs.nontrivial = True
-        return obs.result()
+        return True
     # ---- residual with the dense shadow
     Xf = X.to(dt)
     AX = torch.matmul(A, Xf)
@@ -325,7 +440,8 @@ def run_case(desc):
     rn = torch.linalg.vector_norm(R, dim=-2).double()      # (..., ncols)
     bn = torch.linalg.vector_norm(B.expand(*full_b, n, ncols), dim=-2).double()
     eps = torch.finfo(rdt).eps
-    herm_cfg = Aop.is_hermitian and (Mop is None or Mop.is_hermitian)
+    # (for a dense-wrapped operator whose flag the library determines itself, the class of the system is that of the dense shadow)
+    herm_cfg = getattr(P, "A_flag_expected", Aop.is_hermitian) and (Mop is None or Mop.is_hermitian)
     e_real = E is None or (not E.is_complex()) or float(E.imag.abs().max()) == 0.0
     # cg needs a Hermitian system: otherwise (operator not flagged Hermitian, or complex shifts) the normal equations are used
     normal_eq = eff_method == "cg" and not (herm_cfg and e_real)
@@ -348,18 +464,39 @@ def run_case(desc):
             worstt = float((rn / tight).max())
             obs.count("f32_default_tolerance_checked")
             obs.note(f32_ratio=4 * worstt)
-            obs.check(worstt <= 1.0, "residual_f32_default:%s" % eff_method,
+            obs.check(worstt <= 1.0, tag + "residual_f32_default:%s" % eff_method,
                       "float32, default tolerances, cond %.1f: silent return but the residual is %.2f x the stopping tolerance (max residual %.3e)"
                       % (kap, 4 * worstt, float(rn.max())), kind=kind, n=n)
         if bound is not None:
             worst = float((rn / bound).max())
-            obs.check(worst <= 1.0, "residual:%s:%s%s" % (eff_method, emode, ":normaleq" if normal_eq else ""),
+            obs.check(worst <= 1.0, tag + "residual:%s:%s%s" % (eff_method, emode, ":normaleq" if normal_eq else ""),
                       "silent return but residual/tolerance = %.3e (max residual %.3e)" % (worst, float(rn.max())),
                       kind=kind, spectrum=spectrum, special=desc["special"], kappa=kap, n=n)
         else:
             tot = float(torch.linalg.vector_norm(R))
-            obs.check(tot < f_tol * (1 + 1e-6) + 50 * eps * An * float(xn.max() + 1), "residual:broyden1:%s" % emode,
+            obs.check(tot < f_tol * (1 + 1e-6) + 50 * eps * An * float(xn.max() + 1), tag + "residual:broyden1:%s" % emode,
                       "silent return but |AX-MXE-B| = %.3e >= f_tol %.1e" % (tot, f_tol), kind=kind, n=n)
+        # ---- (ii-b) a column returned as exactly zero for a non-zero right-hand side: its residual is that column of B itself, with no
+        # rounding involved, so the stopping test of the method can be evaluated exactly on it: |b| < max(rtol |b|, atol) (through the
+        # normal equations: the same for A^H b; either reading is accepted there)
+        if eff_method in ("cg", "bicgstab", "gmres"):
+            zcol = (Xf == 0).all(dim=-2) & (bn > 0)
+            if bool(zcol.any()):
+                thr = torch.maximum(rtol * bn, torch.full_like(bn, atol))
+                ok = bn <= thr * (1 + 1e-9)
+                if normal_eq:
+                    if E is not None:
+                        shb = torch.matmul(S.transpose(-2, -1).conj().expand(*full_b, ncols, n, n),
+                                           B.expand(*full_b, n, ncols).transpose(-2, -1).unsqueeze(-1)).squeeze(-1)   # (..., ncols, n)
+                        shbn = torch.linalg.vector_norm(shb, dim=-1).double()
+                    else:
+                        shbn = torch.linalg.vector_norm(torch.matmul(S.squeeze(-3).transpose(-2, -1).conj(), B.expand(*full_b, n, ncols)), dim=-2).double()
+                    ok = ok | (shbn <= torch.maximum(rtol * shbn, torch.full_like(shbn, atol)) * (1 + 1e-6))
+                obs.count("zero_columns_checked", int(zcol.sum()))
+                bad = zcol & ~ok
+                obs.check(not bool(bad.any()), tag + "zero_above_tolerance:%s:%s" % (eff_method, emode),
+                          "silent return of an all-zero column whose residual (= that column of B) is %.3g x the stopping tolerance of the method"
+                          % float((bn / thr)[zcol].max()), kind=kind, n=n, rtol=rtol, atol=atol, special=desc["special"])
         # ---- (iv) dense reference, every batch element and column solved separately with its own shift
         Sx = S.expand(*full_b, ncols, n, n) if E is not None else S.expand(*full_b, 1, n, n).expand(*full_b, ncols, n, n)
         Bx = B.expand(*full_b, n, ncols).transpose(-2, -1).unsqueeze(-1)            # (..., ncols, n, 1)
@@ -370,7 +507,7 @@ def run_case(desc):
         else:
             ebound = (f_tol / smin) * torch.ones_like(en) + 200 * eps * kap * (xn + 1e-300)
         worst = float((en / ebound).max())
-        obs.check(worst <= 1.0, "reference:%s:%s" % (eff_method, emode),
+        obs.check(worst <= 1.0, tag + "reference:%s:%s" % (eff_method, emode),
                   "silent return differs from the dense per-column reference: error/tolerance = %.3e" % worst,
                   kind=kind, spectrum=spectrum, kappa=kap, n=n, special=desc["special"])
     # ---- (iii) well-conditioned classes must be silent
@@ -402,11 +539,11 @@ def run_case(desc):
         must_silent = True      # |B| is below the absolute tolerance: the zero start already meets the stopping test
     if must_silent:
         obs.count("must_silent_cases")
-        obs.check(not warned, "not_silent:%s:%s:%s%s" % (eff_method, emode, spectrum, ":normaleq" if normal_eq else ""),
+        obs.check(not warned, tag + "not_silent:%s:%s:%s%s" % (eff_method, emode, spectrum, ":normaleq" if normal_eq else ""),
                   "well-conditioned system (cond %.1f) but %s warned: %s" % (kap, eff_method, wl.convergence[:1]),
                   kind=kind, n=n, dtype=str(dt), e_complex=not e_real)
     obs.note(warned=warned, max_resid=float(rn.max()), products=nprod, resid_per_column=rn.reshape(-1, ncols)[:2], rhs_norm_per_column=bn.reshape(-1, ncols)[:2],
              bound_per_column=(bound.reshape(-1, ncols)[:2] if bound is not None else None))
     bzero = bool((B == 0).all())
-    obs.nontrivial = (not bzero) and (nprod >= 2 or (eff_method in ("exactsolve", "custom_exactsolve") and n >= 2))
-    return obs.result()
+    P.X, P.warned, P.eff_method = X, warned, eff_method
+    return (not bzero) and (nprod >= 2 or (eff_method in ("exactsolve", "custom_exactsolve") and n >= 2))
